@@ -152,6 +152,7 @@ func stripCR(b []byte) []byte {
 func (s *Scanner) scanString() string {
 	// '"' opening already consumed
 	offs := s.offset - 1
+	end := -1 // offset of closing '"'
 
 	for {
 		ch := s.ch
@@ -161,6 +162,7 @@ func (s *Scanner) scanString() string {
 		}
 		s.next()
 		if ch == '"' {
+			end = s.offset - 1
 			break
 		}
 		if ch == '\\' {
@@ -168,7 +170,12 @@ func (s *Scanner) scanString() string {
 		}
 	}
 
-	return string(s.src[offs+1 : s.offset-1])
+	if end < 0 {
+		// not terminated: literal extends to the current position
+		end = s.offset
+	}
+
+	return string(s.src[offs+1 : end])
 }
 
 // scanEscape parses an escape sequence where rune is the accepted
@@ -243,6 +250,7 @@ func digitVal(ch rune) int {
 func (s *Scanner) scanRawString() string {
 	// '`' opening already consumed
 	offs := s.offset - 1
+	end := -1 // offset of closing '`'
 
 	hasCR := false
 	for {
@@ -253,6 +261,7 @@ func (s *Scanner) scanRawString() string {
 		}
 		s.next()
 		if ch == '`' {
+			end = s.offset - 1
 			break
 		}
 		if ch == '\r' {
@@ -260,7 +269,12 @@ func (s *Scanner) scanRawString() string {
 		}
 	}
 
-	lit := s.src[offs+1 : s.offset-1]
+	if end < 0 {
+		// not terminated: literal extends to the current position
+		end = s.offset
+	}
+
+	lit := s.src[offs+1 : end]
 	if hasCR {
 		lit = stripCR(lit)
 	}
